@@ -188,11 +188,7 @@ def load_kani_groups():
         return json.load(f)
 
 
-def run_kani(prop, repo, rep):
-    """Kani harnesses: injected into a second scratch copy (cfg(kani) only), one `cargo kani` run per group."""
-    groups = [g for g in load_kani_groups() if prop in g.get('props', [])]
-    if not groups:
-        return
+def kani_setup(repo, groups):
     os.makedirs(os.path.dirname(KANI_WORK), exist_ok=True)
     subprocess.run(['rsync', '-a', '--delete', '--exclude', 'target', '--exclude', '.git', repo.rstrip('/') + '/', KANI_WORK + '/'], check=True)
     for g in groups:
@@ -201,32 +197,71 @@ def run_kani(prop, repo, rep):
             h = parse_header(path)
             target = os.path.join(KANI_WORK, h['append-to'][0])
             if not os.path.exists(target):
-                rep['tool_limits'].append('kani target missing: ' + h['append-to'][0])
-                return
+                return 'kani target missing: ' + h['append-to'][0]
             with open(target, 'a') as f:
                 f.write('\n\n// ===== appended by /verif (scratch copy only, cfg(kani)): %s =====\n' % d)
                 f.write(open(path).read())
+    return None
+
+
+def kani_env():
     env = dict(os.environ)
     env['CARGO_NET_OFFLINE'] = 'true'
     env['CARGO_TARGET_DIR'] = os.path.join(CACHE, 'target-kani')
     env.pop('RUSTFLAGS', None)
+    return env
+
+
+def kani_run_harness(g, hname, meta, playback=False):
+    """returns dict(ok, failed, uncovered, out, wall, cmd, witness)"""
+    t0 = time.time()
+    cmd = ['cargo', 'kani', '-p', g['crate'], '--harness', hname, '-Z', 'function-contracts', '-Z', 'stubbing', '--output-format', 'terse']
+    if playback:
+        cmd += ['-Z', 'concrete-playback', '--concrete-playback=inplace']
+    try:
+        p = subprocess.run(cmd, cwd=KANI_WORK, env=kani_env(), capture_output=True, text=True, timeout=int(meta.get('timeout', 900)))
+        out = p.stdout + '\n' + p.stderr
+    except subprocess.TimeoutExpired:
+        return {'timeout': True, 'cmd': ' '.join(cmd), 'wall': round(time.time() - t0, 1)}
+    res = {'ok': 'VERIFICATION:- SUCCESSFUL' in out, 'failed': 'VERIFICATION:- FAILED' in out, 'uncovered': re.findall(r'cover.*UNSATISFIABLE', out),
+           'out': out, 'wall': round(time.time() - t0, 1), 'cmd': ' '.join(cmd), 'witness': None}
+    if playback and res['failed']:
+        # the counterexample Kani wrote into the scratch source as a unit test; run it natively on the real code
+        srctext = open(os.path.join(KANI_WORK, parse_header(os.path.join(ROOT, 'kani', g['files'][0]))['append-to'][0])).read()
+        tests = re.findall(r'fn (kani_concrete_playback_\w+)\(', srctext)
+        vals = re.findall(r'^\s*// (.*)\n\s*vec!\[', srctext, re.M)
+        env = kani_env()
+        env['CARGO_TARGET_DIR'] = os.path.join(CACHE, 'target-kani-playback')
+        pb = subprocess.run(['cargo', 'kani', 'playback', '-Z', 'concrete-playback', '-p', g['crate'], '--', 'kani_concrete_playback'], cwd=KANI_WORK, env=env, capture_output=True, text=True, timeout=1800)
+        pbo = pb.stdout + pb.stderr
+        reproduced = bool(re.search(r'test result: FAILED', pbo))
+        res['witness'] = {'fn': meta.get('fn', hname), 'obligation': 'kani/%s/%s#assertion' % (g['name'], hname), 'input': 'kani counterexample: ' + ', '.join(vals[:8]),
+                          'observed': ' | '.join(l.strip() for l in out.split('\n') if 'Failed Checks' in l)[:300], 'required': meta.get('contract', ''),
+                          'kani_playback_tests': tests, 'native_replay': 'reproduced on the real code (cargo kani playback: test FAILED)' if reproduced else 'not reproduced', 'found_by': ' '.join(cmd)}
+    return res
+
+
+def run_kani(prop, repo, rep):
+    """Kani harnesses: injected into a second scratch copy (cfg(kani) only), one `cargo kani` run per harness."""
+    groups = [g for g in load_kani_groups() if prop in g.get('props', [])]
+    if not groups:
+        return
+    err = kani_setup(repo, groups)
+    if err:
+        rep['tool_limits'].append(err)
+        return
     for g in groups:
         for hname, meta in g['harnesses'].items():
             if prop not in meta.get('props', g['props']):
                 continue
-            t0 = time.time()
-            cmd = ['cargo', 'kani', '-p', g['crate'], '--harness', hname, '-Z', 'function-contracts', '-Z', 'stubbing', '--output-format', 'terse']
-            try:
-                p = subprocess.run(cmd, cwd=KANI_WORK, env=env, capture_output=True, text=True, timeout=int(meta.get('timeout', 900)))
-                out = p.stdout + '\n' + p.stderr
-            except subprocess.TimeoutExpired:
+            r = kani_run_harness(g, hname, meta)
+            if r.get('timeout'):
                 rep['tool_limits'].append('kani harness %s timed out' % hname)
                 continue
-            wall = round(time.time() - t0, 1)
-            ok = 'VERIFICATION:- SUCCESSFUL' in out
-            failed = 'VERIFICATION:- FAILED' in out
-            uncovered = re.findall(r'cover.*UNSATISFIABLE', out)
-            rep['cmds'].append(' '.join(cmd))
+            if r['failed']:
+                r = kani_run_harness(g, hname, meta, playback=True)
+            ok, failed, uncovered, out, wall = r['ok'], r['failed'], r['uncovered'], r['out'], r['wall']
+            rep['cmds'].append(r['cmd'])
             rep['kani'].append({'harness': hname, 'ok': ok, 'wall_s': wall, 'domain': meta.get('domain', '')})
             ob = {'id': 'kani/%s/%s' % (g['name'], hname), 'unit': g['name'], 'function': meta.get('fn', hname), 'backend': 'kani 0.68 + cbmc', 'ms': wall * 1000,
                   'kind': 'kani-harness (%s)' % meta.get('domain', 'full domain'), 'status': 'discharged' if ok and not uncovered else 'failed'}
@@ -239,9 +274,23 @@ def run_kani(prop, repo, rep):
             elif failed:
                 checks = [l.strip() for l in out.split('\n') if 'FAILURE' in l or 'Failed Checks' in l][:6]
                 rep['violations'].append({'obligation': 'kani/%s/%s#assertion' % (g['name'], hname), 'at': meta.get('fn', hname), 'message': 'Kani harness failed: ' + ' | '.join(checks),
-                                          'repo_loc': meta.get('where'), 'clause': meta.get('contract'), 'rendered': out[-3000:], 'unit': g['name'], 'function': meta.get('fn', hname)})
+                                          'repo_loc': meta.get('where'), 'clause': meta.get('contract'), 'rendered': out[-3000:], 'unit': g['name'], 'function': meta.get('fn', hname),
+                                          'witness': r.get('witness'), 'native': True})
             elif not ok:
                 rep['tool_limits'].append('kani harness %s did not complete: %s' % (hname, out[-400:].replace('\n', ' | ')))
+
+
+def kani_witness(fn, repo):
+    """A Verus obligation of the scalar leaf `fn` failed: ask Kani for a concrete counterexample and replay it natively."""
+    for g in load_kani_groups():
+        for hname, meta in g['harnesses'].items():
+            if meta.get('fn') == fn:
+                if kani_setup(repo, [g]):
+                    return None
+                r = kani_run_harness(g, hname, meta, playback=True)
+                if r.get('witness'):
+                    return r['witness']
+    return None
 
 
 def obligation_prop_ok(w, prop, meta, cfg=None):
@@ -260,6 +309,12 @@ def find_witness(prop, cfg, violation, repo):
     """A Verus obligation failed: run the bounded driver that covers the same function (if any)
     and return the first concrete failing input it finds."""
     fn = (violation.get('function') or '').split('::')[-1]
+    try:
+        w = kani_witness(fn, repo)
+        if w:
+            return w
+    except Exception:
+        pass
     try:
         groups = [g for g in load_groups() if fn in g.get('fns', {})]
     except Exception:
@@ -294,8 +349,16 @@ def replay(prop, path, repo):
         print(r.get('verifier_output'))
         return 1
     print(' recorded witness:', json.dumps(w))
-    # re-run the driver that found it against the current tree
     fn = w.get('fn')
+    if w.get('kani_playback_tests'):
+        # a Kani counterexample: ask Kani again on the current tree and replay the generated test natively
+        again = kani_witness(fn, repo)
+        if again and 'reproduced' in again.get('native_replay', '') and 'not reproduced' not in again.get('native_replay', ''):
+            print(' REPRODUCED on the current tree:', json.dumps(again))
+            return 1
+        print(' not reproduced on the current tree (the harness verifies or the playback test passes)')
+        return 0
+    # re-run the driver that found it against the current tree
     groups = [g for g in load_groups() if fn in g.get('fns', {})]
     sync_repo(repo)
     inject_drivers(sorted(set(os.path.join(ROOT, 'drivers', d) for g in groups for d in g.get('drivers', []))))
